@@ -106,7 +106,7 @@ Theorem C07_release_and_expiry :
   (∀ s ids i, (0 < c_resv (conf s))%N → i ∈ ids → is_locked (lock_utxos s ids) i = true) ∧
   (∀ s ids i d, i ∈ ids → (c_resv (conf s) ≤ d)%N →
      is_locked (step (lock_utxos s ids) (Tick d)).1 i = false).
-Proof. exact (conj release_frees (conj release_only_those (conj lock_reserves lock_expires))). Qed.
+Proof. exact release_and_expiry. Qed.
 Print Assumptions C07_release_and_expiry.
 
 (** In every state: Balance().Spendable is the sum of SpendableOutputs(), which are exactly
@@ -119,10 +119,7 @@ Theorem C07_views_agree :
     (∀ u, u ∈ spendable_outputs s ↔ spendable s u) ∧
     (vals_nonneg s → ∀ amount inputs v2, 0 < amount →
        (is_Some (select_utxos s amount inputs false v2) ↔ amount ≤ b_spendable (balance s))).
-Proof.
-  exact (λ s, conj (balance_spendable_outputs s) (conj (spendable_outputs_eligible s)
-          (conj (elem_of_spendable_outputs s) (λ H a i v, fundable_iff_balance s a i v H)))).
-Qed.
+Proof. exact views_agree. Qed.
 Print Assumptions C07_views_agree.
 
 (** The selection as it was before the repair (commit 4613102) returns an input twice: six
